@@ -15,8 +15,8 @@ from . import c01
 
 ID = "C02"
 SETS = {
-    "quick": ["U1L_all", "R2K", "P:P0q", "P:P1q"],
-    "thorough": ["U1L_all", "U1K3", "U2K", "P:P0", "P:P1", "P:P3", "P:P4"],
+    "quick": ["U1L_all", "R2K", "P:P0q", "P:P1q", "P:P7q"],
+    "thorough": ["U1L_all", "U1K3", "U2K", "P:P0", "P:P1", "P:P3", "P:P4", "P:P7"],
 }
 WR = {"quick": (2, 2), "thorough": (2, 3)}
 STEP = 40
@@ -43,8 +43,16 @@ CONFIGS = {
 }
 
 
+def _same_document(cfg, b1, b2):
+    """the two encodings are the same JSON document (object members are unordered: a class declaring its fields in another
+    order re-encodes the same members in that order)"""
+    dec = _tag_dec if cfg == "tag" else json.loads
+    p1, p2 = call(dec, b1), call(dec, b2)
+    return p1.ok and p2.ok and same(p1.val, p2.val)
+
+
 def units(tier):
-    return E.ranges(SETS[tier], STEP) + [("bytes", 0, 1)]
+    return E.ranges(SETS[tier], STEP) + [("bytes", 0, 1), ("strref", 0, 1)]
 
 
 def meta(tier):
@@ -125,7 +133,7 @@ def judge(prog, cfg, cdc, v, res, case):
             # weak form: encode(decode(encode(v))) == encode(v)
             if enc.ok and dec is not None and dec.ok:
                 e2 = call(cdc.encode, dec.val)
-                excused = e2.ok and e2.val == enc.val
+                excused = e2.ok and (e2.val == enc.val or _same_document(cfg, e2.val, enc.val))
             if not excused:
                 # inherent to first-acceptor semantics with coercive members? (same classification as C01)
                 res.hit("weak-form-needed")
@@ -254,9 +262,70 @@ def run_bytes(res):
                     res.violation(f"C02/bytes/encode/{tname}/{name}", f"{name}({v!r}) = {short(o.val if o.ok else o.exc, 80)}; expected the bytes verbatim", {"bytes": tname})
 
 
+_STRREF_SRC = """import dataclasses, json, typelib
+
+@dataclasses.dataclass
+class Payload:
+    ident: {TI}
+    tags: list[{TT}]
+
+def ep():
+    # every entry point is called from THIS module with the type given by name
+    v = Payload({V})
+    c = typelib.codec("Payload")
+    wire = c.encode(v)
+    return dict(
+        v=v, wire=wire, codec_decode=c.decode(wire), top_decode=typelib.decode("Payload", wire),
+        manual_decode=typelib.unmarshal("Payload", json.loads(wire)), top_encode=typelib.encode(v, t="Payload"),
+        manual_encode=typelib.compat.json.dumps(typelib.marshal(v, t="Payload")),
+    )
+"""
+
+
+def run_strref(res):
+    """(5) the type named by a string reference, from two modules that bind the name to different classes (both orders):
+    in each module all entry points agree and decode into THAT module's class"""
+    from ..kernel import cold
+    from ..universe.prelude import dropmod, mkmod
+
+    names = ("tlg_c02_ref_a", "tlg_c02_ref_b")
+    fills = (dict(TI="int", TT="str", V="7, ['1', '2']"), dict(TI="str", TT="int", V="'7', [1, 2]"))
+    for order in ((0, 1), (1, 0)):
+        cold.clear_all()
+        res.programs += 1
+        try:
+            mods = [None, None]
+            for i in order:
+                mods[i] = mkmod(names[i], _STRREF_SRC.format(**fills[i]))
+            for i in order:
+                pos = "first" if order[0] == i else "second"
+                o = call(mods[i].ep)
+                res.evals += 1
+                res.hit("strref:" + pos)
+                key = h64("strref", order, i, "ok" if o.ok else o.excname)
+                res.outcomes.add(key)
+                if not o.ok:
+                    res.violation(f"C02/strref/{pos}-module/raises:{o.excname}", f"entry points called with t='Payload' from the {pos} module raise {o!r}", {"strref": 1})
+                    continue
+                res.nontrivial.add(key)
+                d = o.val
+                for name in ("codec_decode", "top_decode", "manual_decode"):
+                    if not same(d[name], d["v"]):
+                        res.violation(f"C02/strref/{pos}-module/{name}/differs", f"{name} of {d['wire']!r} with t='Payload' in the {pos} module gives {d[name]!r} (class of module {type(d[name]).__module__}), expected {d['v']!r}", {"strref": 1})
+                for name in ("top_encode", "manual_encode"):
+                    if d[name] != d["wire"]:
+                        res.violation(f"C02/strref/{pos}-module/{name}/differs", f"{name} gives {d[name]!r} but Codec.encode gives {d['wire']!r}", {"strref": 1})
+        finally:
+            for n_ in names:
+                dropmod(n_)
+
+
 def run_unit(unit, tier, res):
     if unit[0] == "bytes":
         run_bytes(res)
+        return
+    if unit[0] == "strref":
+        run_strref(res)
         return
     s, a, b = unit
     for off, term in enumerate(E.unit_terms(unit)):
@@ -266,6 +335,9 @@ def run_unit(unit, tier, res):
 def replay(case, tier, res):
     if "bytes" in case:
         run_bytes(res)
+        return
+    if "strref" in case:
+        run_strref(res)
         return
     term = E.term_set(case["set"])[case["i"]]
     run_term(case["set"], case["i"], term, tier, res, only_vi=case.get("vi"))
